@@ -13,9 +13,10 @@ U_ISSUBCLASS = {'DataCls': {'taskchain.data:InMemoryData': 'is_inmemory'}}
 # ------------------------------------------------------------------------------------------------
 # migrate_to_parameter_mode
 # ------------------------------------------------------------------------------------------------
-TasksHolder = Iface('TasksHolder', props={'all': Prop(Seq(TaskU))}, methods={'values': Meth(field='all')})
-OldChainIface = Iface('MOldChainIface', props={'tasks': Prop(Abs(TasksHolder, 'old_chain.tasks'))})
-NewChainIface = Iface('MNewChainIface', props={'tasks': Prop(Abs(TasksHolder, 'new_chain.tasks'))})
+# chain.tasks: name -> task object.  Several names may map to ONE object (parameter mode shares identical computations
+# mounted under different namespaces), so the chains are paired by the names of chain.tasks, not by task.fullname (F20b)
+OldChainIface = Iface('MOldChainIface', props={'tasks': Prop(Map(Str, TaskU))})
+NewChainIface = Iface('MNewChainIface', props={'tasks': Prop(Map(Str, TaskU))})
 
 
 def _old_chain(ex, ref, args):
@@ -46,9 +47,8 @@ def _config_ctor(ex, cv, args, kwargs):
 
 
 def mig_pre(config, target_dir):
-    """both chains are built from the same config file: the new chain has a task for every name of the old one"""
-    new_names = [t.fullname for t in config.new_chain.tasks.all]
-    return all(t.fullname in new_names for t in config.old_chain.tasks.all)
+    """both chains are built from the same config file: the new chain has an entry for every task name of the old one"""
+    return all(n in config.new_chain.tasks for n in config.old_chain.tasks)
 
 
 def mig_target(config, target_dir, trace):
@@ -71,13 +71,13 @@ def mig_step(name, old_task, new_chain, dry, trace, fs, fs_iter0):
 def mig_inv(config, dry, fs, fs_loop0):
     """a dry run leaves the file system as it was; a real one writes nothing but result paths of the new chain"""
     return all_of((not dry) or fs.same_except(fs_loop0),
-                  fs.same_outside(fs_loop0, [t.data_path for t in config.new_chain.tasks.all]))
+                  fs.same_outside(fs_loop0, [t.data_path for t in config.new_chain.tasks.values()]))
 
 
 def mig_frame(config, fs, fs0):
     """nothing but result paths of the parameter-mode chain is ever written: the source directory (and everything else)
     stays as it was"""
-    return fs.same_outside(fs0, [t.data_path for t in config.new_chain.tasks.all])
+    return fs.same_outside(fs0, [t.data_path for t in config.new_chain.tasks.values()])
 
 
 def mig_dry(dry, fs, fs0):
